@@ -174,7 +174,7 @@ class Endpoint:
         if self.w.call_hook is not None:
             self.w.call_hook()  # (C11: another world of the process may run API calls of its own here)
         before = state_snapshot(self.h)
-        cev = self.log.add("call", self.side, api=api, arg=arg_desc, before=before, qlen=before[5])
+        cev = self.log.add("call", self.side, api=api, arg=arg_desc, before=before, qlen=before[5], queued=len(getattr(self.h, "_pdus_to_be_sent", ())))
         vclock.use(self.w.clock)
         audit.enter_api()
         try:
@@ -782,6 +782,15 @@ class Runner:
             self.w.log.add("action", ep.side, what="cancel", res=res, wrong=bool(act[2:] and act[2] == "wrong"))
         elif kind == "tick":
             self.advance_clock()
+        elif kind == "reset":
+            # the user gives the transaction up: reset() on one handler (PDUs already queued are still collected afterwards)
+            ep = self.w.S if act[1] == "S" else self.w.D
+            try:
+                ep.reset()
+                ep.drain()
+            except Exception as e:  # noqa: BLE001
+                raise InternalError(ep.side, e) from e
+            self.w.log.add("action", ep.side, what="reset", res=None)
         elif kind == "put_third":
             # the user issues a valid put request towards the third entity while the sender is busy: refused, nothing else happens
             if self.w.S.h.state == CfdpState.BUSY:
